@@ -55,7 +55,7 @@ ALARM_TEXT = {
     903: "a store operation was issued after the stop call returned",
     904: "library goroutines left after all elections were stopped",
     905: "stop call exceeded its time bound",
-    906: "panic",
+    906: "panic, or every goroutine blocked (deadlock)",
     907: "hang (watchdog)",
     909: "the instance reports leadership when its stop call returns",
     908: "StopWithContext(DeleteKey) returned while the caller's own record was still live",
@@ -67,6 +67,8 @@ ALARM_TEXT = {
     1103: "reconnect verification kept/dropped leadership against the fresh read",
     1107: "a reconnect notification to a leader was not followed by a fresh read of the record",
     1104: "grace demotion without the demotion callback",
+    1105: "panic, or every goroutine blocked (deadlock)",
+    1106: "hang (watchdog)",
     1201: "health demotion at a count other than the configured number of consecutive unhealthy ticks",
     1202: "the configured number of consecutive unhealthy ticks was reached but the leader kept claiming",
     1203: "health demotion without the demotion callback",
